@@ -25,6 +25,7 @@ ASSUMPTIONS = ["numpy eigh; PyYAML and h5py as independent file readers", "seria
 BUDGET = {"quick": 900, "thorough": 3400}
 
 XT = ["NaCl-prim-2", "diamond-prim-2", "wurtzite-4", "tri-P1-3", "hcp-2", "CsCl-2"]
+XT_T = ["sc-1", "zincblende-prim-2", "rhomb-prim-2", "bct-conv-2", "rutile-6", "ortho-P-2", "mono-P21-2", "mono-Pc-2", "tri-P-1bar-2", "trig-P3-4", "fcc-conv-4", "mono-C-conv-4"]
 NACX = {"NaCl-prim-2", "wurtzite-4", "tri-P1-3", "CsCl-2"}
 
 
@@ -33,6 +34,18 @@ def plan(tier, seed):
     for name in XT:
         for nac in ((None, "wang", "gonze") if name in NACX else (None,)):
             groups.append([{"xtal": name, "nac": nac}])
+    if tier != "quick":
+        # thorough: other meshes (odd, anisotropic), longer-ranged model, non-diagonal supercell, more crystals
+        for name in XT:
+            for nac in ((None, "wang", "gonze") if name in NACX else (None,)):
+                for mesh, model in (([3, 3, 3], "nn"), ([2, 3, 1], "short"), ([1, 1, 4], "nn")):
+                    groups.append([{"xtal": name, "nac": nac, "mesh": mesh, "model": model}])
+        for name in XT_T:
+            for mesh in ([2, 2, 2], [3, 2, 1]):
+                groups.append([{"xtal": name, "nac": None, "mesh": mesh, "model": "nn"}])
+        for name in ("NaCl-prim-2", "tri-P1-3", "hcp-2"):
+            for nac in ((None, "gonze") if name in NACX else (None,)):
+                groups.append([{"xtal": name, "nac": nac, "S": [[2, 1, 0], [0, 2, 0], [0, 0, 2]] if name != "NaCl-prim-2" else [[-2, 2, 2], [2, -2, 2], [2, 2, -2]], "mesh": [2, 2, 3]}])
     meta = {"alphabet": {"crystals": XT, "nac": ["none", "wang", "gonze"], "option_combinations": 8, "q_direction": 2,
                          "paths": ["run_qpoints", "run_band_structure(connection off/on)", "run_mesh", "iter_mesh", "dynamical_matrix.run+eigh",
                                    "get_frequencies", "get_frequencies_with_eigenvectors", "get_dynamical_matrix_at_q", "yaml", "hdf5"]},
@@ -74,9 +87,12 @@ def run_case(case, seed):
     name, nac = case["xtal"], case["nac"]
     tag = "nac=%s" % nac
     S = [[2, 0, 0], [0, 2, 0], [0, 0, 2]] if name != "wurtzite-4" else [[2, 0, 0], [0, 2, 0], [0, 0, 1]]
+    if case.get("S"):
+        S = case["S"]
     c = phx.xtal(name)
     ph = phx.make_phonopy(c, S, None)
-    ph.force_constants = phx.supercell_fc(ph, phx.model_for(ph, "nn", seed))
+    MESH = case.get("mesh", [2, 2, 2])
+    ph.force_constants = phx.supercell_fc(ph, phx.model_for(ph, case.get("model", "nn"), seed))
     if nac:
         ph.nac_params = SC.nac_params(name, nac) if name in SC.NAC else dict(SC.nac_params("NaCl-prim-2", nac), born=np.array([np.eye(3) * 1.2, np.eye(3) * -1.2]))
     nb = 3 * len(ph.primitive)
@@ -86,7 +102,7 @@ def run_case(case, seed):
         return dict(ok=False, sig="C14/%s/%s" % (kind, tag), nontrivial=True, transitions=trans, msg="%s %s: %s" % (name, tag, msg))
 
     # shared q-set: the points of a Gamma-centred 2x2x2 mesh without symmetry + generic points
-    ph.run_mesh([2, 2, 2], is_mesh_symmetry=False, is_gamma_center=True, with_eigenvectors=True, with_group_velocities=True)
+    ph.run_mesh(MESH, is_mesh_symmetry=False, is_gamma_center=True, with_eigenvectors=True, with_group_velocities=True)
     md = ph.get_mesh_dict()
     trans += 1
     qs = np.array(list(md["qpoints"]) + [[0.11, 0.23, -0.31], [0.4, 0.1, 0.27], [0.0, 0.3, 0.3]])
@@ -165,7 +181,7 @@ def run_case(case, seed):
                 return fail("option-dependence/presence", "%s: returned keys do not match the request" % what)
 
     # after the direction runs: mesh, band, q-points again must still agree with the reference (no state left behind)
-    ph.run_mesh([2, 2, 2], is_mesh_symmetry=False, is_gamma_center=True, with_eigenvectors=True, with_group_velocities=True)
+    ph.run_mesh(MESH, is_mesh_symmetry=False, is_gamma_center=True, with_eigenvectors=True, with_group_velocities=True)
     md2 = ph.get_mesh_dict()
     trans += 1
     for k in range(nmesh):
@@ -173,14 +189,14 @@ def run_case(case, seed):
             return fail("history/group-velocity/run_mesh-after-q-direction", "mesh group velocities at q=%s changed after a run_qpoints call with nac_q_direction" % qs[k].round(4).tolist())
     # iterated mesh
     try:
-        ph.init_mesh([2, 2, 2], is_mesh_symmetry=False, is_gamma_center=True, with_eigenvectors=True, use_iter_mesh=True)
+        ph.init_mesh(MESH, is_mesh_symmetry=False, is_gamma_center=True, with_eigenvectors=True, use_iter_mesh=True)
         it = list(ph.mesh)
         trans += 1
         fi = np.array([x[0] for x in it])
         bad = cmp_freq(fi, "iter_mesh", slice(0, nmesh))
         if bad:
             return bad
-        ph.init_mesh([2, 2, 2], is_mesh_symmetry=False, is_gamma_center=True, with_eigenvectors=False, use_iter_mesh=True)
+        ph.init_mesh(MESH, is_mesh_symmetry=False, is_gamma_center=True, with_eigenvectors=False, use_iter_mesh=True)
         it2 = [x for x in ph.mesh]
         fi2 = np.array([x[0] for x in it2])
         bad = cmp_freq(fi2, "iter_mesh(no eigenvectors)", slice(0, nmesh))
@@ -256,7 +272,7 @@ def run_case(case, seed):
                 for key, rk in (("frequency", "frequencies"), ("eigenvector", "eigenvectors"), ("group_velocity", "group_velocities"), ("dynamical_matrix", "dynamical_matrices")):
                     if not np.array_equal(h[key][:], ref[rk]):
                         return fail("file/qpoints.hdf5/" + key, "hdf5 dataset differs from memory")
-            ph.run_mesh([2, 2, 2], is_mesh_symmetry=False, is_gamma_center=True, with_eigenvectors=True, with_group_velocities=True)
+            ph.run_mesh(MESH, is_mesh_symmetry=False, is_gamma_center=True, with_eigenvectors=True, with_group_velocities=True)
             md3 = ph.get_mesh_dict()
             ph.write_yaml_mesh()
             ph.write_hdf5_mesh()
@@ -271,7 +287,8 @@ def run_case(case, seed):
             with h5py.File("mesh.hdf5") as h:
                 if not np.array_equal(h["frequency"][:], md3["frequencies"]) or not np.array_equal(h["eigenvector"][:], md3["eigenvectors"]):
                     return fail("file/mesh.hdf5", "hdf5 mesh differs from memory")
-            ph.run_band_structure([qs[1:6], qs[6:]], with_eigenvectors=True, with_group_velocities=True, is_band_connection=True)
+            nh = (len(qs) - 1) // 2  # two segments of equal length (write_hdf5 stores the paths as one rectangular array)
+            ph.run_band_structure([qs[1:1 + nh], qs[len(qs) - nh:]], with_eigenvectors=True, with_group_velocities=True, is_band_connection=True)
             bd = ph.get_band_structure_dict()
             ph.write_yaml_band_structure(filename="band.yaml")
             ph.write_hdf5_band_structure(filename="band.hdf5")
